@@ -130,9 +130,9 @@ Proof.
 Qed.
 
 (* what an arriving message does to context c depends on c's own record and c's own parked calls only *)
-Lemma deliver_local s p body c :
+Lemma deliver_local fixed s p body c :
   pipe_up (sb_pipes s) p = true -> sb_wedged s = false ->
-  kget c (sb_ctxs (fst (sb_step s (SDeliver p body)))) =
+  kget c (sb_ctxs (fst (sb_step fixed s (SDeliver p body)))) =
   match kget c (sb_ctxs s) with Some x => Some (snd (dl_ctx (sb_threads s) body (c, x))) | None => None end.
 Proof.
   intros Hp Hw. unfold sb_step. cbn [fst sb_step_raw sb_clear sb_with sb_pipes sb_wedged sb_ctxs sb_threads].
@@ -141,9 +141,9 @@ Proof.
 Qed.
 
 (* the observations of a delivery step are exactly the hand-overs *)
-Lemma deliver_obs s p body :
+Lemma deliver_obs fixed s p body :
   pipe_up (sb_pipes s) p = true -> sb_wedged s = false ->
-  snd (sb_step s (SDeliver p body)) = map (fun t => ORet t (RMsg [] body)) (flat_map (dl_handed (sb_threads s) body) (sb_ctxs s)).
+  snd (sb_step fixed s (SDeliver p body)) = map (fun t => ORet t (RMsg [] body)) (flat_map (dl_handed (sb_threads s) body) (sb_ctxs s)).
 Proof.
   intros Hp Hw. unfold sb_step. cbn [snd sb_step_raw sb_clear sb_with sb_pipes sb_wedged sb_ctxs sb_threads sb_out].
   rewrite Hp, Hw. cbn [negb]. unfold sb_deliver.
@@ -152,14 +152,14 @@ Qed.
 
 (* sub_iff, queue form: with nobody parked on c and room to queue at all, the message is enqueued on c
    (dropping the oldest when full) iff one of c's CURRENT subscriptions is a prefix of its body *)
-Lemma sub_iff s p body c x :
+Lemma sub_iff fixed s p body c x :
   pipe_up (sb_pipes s) p = true -> sb_wedged s = false ->
   kget c (sb_ctxs s) = Some x -> x_closed x = false ->
   blocked_on (sb_threads s) c = [] -> 0 < x_qlen x ->
   ((exists t r, In t (x_subs x) /\ body = t ++ r) ->
-     kget c (sb_ctxs (fst (sb_step s (SDeliver p body)))) = Some (push x body)) /\
+     kget c (sb_ctxs (fst (sb_step fixed s (SDeliver p body)))) = Some (push x body)) /\
   (~ (exists t r, In t (x_subs x) /\ body = t ++ r) ->
-     kget c (sb_ctxs (fst (sb_step s (SDeliver p body)))) = Some x).
+     kget c (sb_ctxs (fst (sb_step fixed s (SDeliver p body)))) = Some x).
 Proof.
   intros Hp Hw Hx Hc Hb Hq. rewrite deliver_local by assumption. rewrite Hx.
   unfold dl_ctx. rewrite Hb. unfold wants. rewrite Hc. cbn [negb andb].
@@ -170,13 +170,13 @@ Proof.
 Qed.
 
 (* sub_iff, hand-over form: a Recv parked on c returns the arriving message iff it matches c's subscriptions *)
-Lemma sub_iff_parked s p body c x th :
+Lemma sub_iff_parked fixed s p body c x th :
   pipe_up (sb_pipes s) p = true -> sb_wedged s = false ->
   NoDup (map fst (sb_ctxs s)) -> NoDup (map th_id (sb_threads s)) ->
   kget c (sb_ctxs s) = Some x -> x_closed x = false ->
   blocked_on (sb_threads s) c = [th] ->
-  (In (ORet (th_id th) (RMsg [] body)) (snd (sb_step s (SDeliver p body))) <-> exists t r, In t (x_subs x) /\ body = t ++ r)
-  /\ kget c (sb_ctxs (fst (sb_step s (SDeliver p body)))) = Some x.
+  (In (ORet (th_id th) (RMsg [] body)) (snd (sb_step fixed s (SDeliver p body))) <-> exists t r, In t (x_subs x) /\ body = t ++ r)
+  /\ kget c (sb_ctxs (fst (sb_step fixed s (SDeliver p body)))) = Some x.
 Proof.
   intros Hp Hw Hnk Hnt Hx Hc Hb. split.
   - rewrite deliver_obs by assumption. rewrite <- matches_spec. rewrite in_map_iff. split.
@@ -201,13 +201,13 @@ Qed.
 (* ---------------------------------------------------------------------------------------------- *)
 (*  SUB: Unsubscribe                                                                                *)
 (* ---------------------------------------------------------------------------------------------- *)
-Lemma unsub_purges s t c v topic x :
+Lemma unsub_purges fixed s t c v topic x :
   sb_wedged s = false -> kget c (sb_ctxs s) = Some x -> In topic (x_subs x) ->
-  exists x', kget c (sb_ctxs (fst (sb_step s (SCall t (CSetOpt c OUnsubscribe v topic))))) = Some x' /\
+  exists x', kget c (sb_ctxs (fst (sb_step fixed s (SCall t (CSetOpt c OUnsubscribe v topic))))) = Some x' /\
              x_subs x' = remove1 topic (x_subs x) /\
              x_q x' = filter (matches (x_subs x')) (x_q x) /\
              (forall m, In m (x_q x') -> matches (x_subs x') m = true) /\
-             snd (sb_step s (SCall t (CSetOpt c OUnsubscribe v topic))) = [ORet t ROk].
+             snd (sb_step fixed s (SCall t (CSetOpt c OUnsubscribe v topic))) = [ORet t ROk].
 Proof.
   intros Hw Hx Hin.
   assert (He : existsb (bytes_eqb topic) (x_subs x) = true).
@@ -220,10 +220,10 @@ Proof.
   intros m Hm. apply filter_In in Hm. apply Hm.
 Qed.
 
-Lemma unsub_absent s t c v topic x :
+Lemma unsub_absent fixed s t c v topic x :
   sb_wedged s = false -> kget c (sb_ctxs s) = Some x -> ~ In topic (x_subs x) ->
-  sb_ctxs (fst (sb_step s (SCall t (CSetOpt c OUnsubscribe v topic)))) = sb_ctxs s /\
-  snd (sb_step s (SCall t (CSetOpt c OUnsubscribe v topic))) = [ORet t (RErr EBadValue)].
+  sb_ctxs (fst (sb_step fixed s (SCall t (CSetOpt c OUnsubscribe v topic)))) = sb_ctxs s /\
+  snd (sb_step fixed s (SCall t (CSetOpt c OUnsubscribe v topic))) = [ORet t (RErr EBadValue)].
 Proof.
   intros Hw Hx Hin.
   assert (He : existsb (bytes_eqb topic) (x_subs x) = false).
@@ -245,10 +245,10 @@ Proof.
   destruct (N.eqb_spec (th_ctx th) c); [contradiction|]. apply app_nil_r.
 Qed.
 
-Lemma ctx_independent s t k c c' :
+Lemma ctx_independent fixed s t k c c' :
   call_ctx k = Some c' -> c <> c' ->
-  kget c (sb_ctxs (fst (sb_step s (SCall t k)))) = kget c (sb_ctxs s) /\
-  blocked_on (sb_threads (fst (sb_step s (SCall t k)))) c = blocked_on (sb_threads s) c.
+  kget c (sb_ctxs (fst (sb_step fixed s (SCall t k)))) = kget c (sb_ctxs s) /\
+  blocked_on (sb_threads (fst (sb_step fixed s (SCall t k)))) c = blocked_on (sb_threads s) c.
 Proof.
   intros Hk Hne. unfold sb_step. cbn [fst sb_step_raw]. unfold sb_call.
   cbn [sb_clear sb_with sb_wedged sb_ctxs sb_threads sb_closed].
@@ -309,7 +309,7 @@ Qed.
 Lemma sub_inv_set s c x : sub_inv s -> ctx_ok x -> sub_inv (sb_set_ctx s c x).
 Proof. intros H Hx. unfold sub_inv, sb_set_ctx. cbn [sb_with sb_ctxs]. apply Forall_kset; assumption. Qed.
 
-Lemma sb_step_inv s st : sub_inv s -> sub_inv (fst (sb_step s st)).
+Lemma sb_step_inv fixed s st : sub_inv s -> sub_inv (fst (sb_step fixed s st)).
 Proof.
   intro H. unfold sb_step. cbn [fst].
   assert (Hc : sub_inv (sb_clear s)) by exact H.
@@ -352,26 +352,26 @@ Qed.
 Lemma sub_inv_init : sub_inv sb_init.
 Proof. repeat constructor. Qed.
 
-Fixpoint sb_run (s : sstate) (h : list stim) : sstate :=
-  match h with [] => s | st :: r => sb_run (fst (sb_step s st)) r end.
+Fixpoint sb_run (fixed : bool) (s : sstate) (h : list stim) : sstate :=
+  match h with [] => s | st :: r => sb_run fixed (fst (sb_step fixed s st)) r end.
 
-Lemma sub_inv_always h : sub_inv (sb_run sb_init h).
+Lemma sub_inv_always fixed h : sub_inv (sb_run fixed sb_init h).
 Proof.
-  assert (G : forall s, sub_inv s -> sub_inv (sb_run s h)).
+  assert (G : forall s, sub_inv s -> sub_inv (sb_run fixed s h)).
   { induction h as [|st r IH]; intros s Hs; [exact Hs|]. cbn [sb_run]. apply IH, sb_step_inv, Hs. }
   apply G, sub_inv_init.
 Qed.
 
 (* consequence for the application: whatever a Recv pops from a queue matches the subscriptions in force *)
-Lemma recv_returns_matching h t c x m q' :
-  let s := sb_run sb_init h in
+Lemma recv_returns_matching fixed h t c x m q' :
+  let s := sb_run fixed sb_init h in
   kget c (sb_ctxs s) = Some x -> x_q x = m :: q' -> x_closed x = false -> sb_wedged s = false ->
-  snd (sb_step s (SCall t (CRecv c))) = [ORet t (RMsg [] m)] /\ matches (x_subs x) m = true.
+  snd (sb_step fixed s (SCall t (CRecv c))) = [ORet t (RMsg [] m)] /\ matches (x_subs x) m = true.
 Proof.
   intros s Hx Hq Hc Hw. split.
   - unfold sb_step. cbn [snd sb_step_raw]. unfold sb_call. cbn [sb_clear sb_with sb_wedged sb_ctxs]. rewrite Hw. cbn [andb].
     rewrite Hx, Hq, Hc. reflexivity.
-  - pose proof (sub_inv_always h) as Hi. fold s in Hi. pose proof (kget_Forall _ _ _ _ Hi Hx) as Hok.
+  - pose proof (sub_inv_always fixed h) as Hi. fold s in Hi. pose proof (kget_Forall _ _ _ _ Hi Hx) as Hok.
     cbn [snd] in Hok. unfold ctx_ok in Hok. rewrite Hq in Hok. inversion Hok; assumption.
 Qed.
 
@@ -421,14 +421,14 @@ Proof.
 Qed.
 
 (* ---------------------------------------------------------------------------------------------- *)
-(*  defects of the code as found (the model follows the code)                                       *)
+(*  the two defects of sub.go as found (fixed = false) and the repaired code (fixed = true)          *)
 (* ---------------------------------------------------------------------------------------------- *)
-(* READQ-LEN 0: a matching message with no Recv parked wedges the socket ... *)
+(* as found, READQ-LEN 0: a matching message with no Recv parked wedges the socket ... *)
 Lemma readqlen_zero_wedges s p body c x :
   pipe_up (sb_pipes s) p = true -> sb_wedged s = false ->
   kget c (sb_ctxs s) = Some x -> x_closed x = false -> x_qlen x = 0 ->
   blocked_on (sb_threads s) c = [] -> matches (x_subs x) body = true ->
-  sb_wedged (fst (sb_step s (SDeliver p body))) = true.
+  sb_wedged (fst (sb_step false s (SDeliver p body))) = true.
 Proof.
   intros Hp Hw Hx Hc Hq Hb Hm. unfold sb_step. cbn [fst sb_step_raw sb_clear sb_with sb_pipes sb_wedged sb_ctxs sb_threads].
   rewrite Hp, Hw. cbn [negb]. unfold sb_deliver. cbn [sb_flags sb_clear sb_with sb_wedged sb_ctxs sb_threads]. rewrite ?Hw. cbn [orb].
@@ -437,41 +437,115 @@ Proof.
 Qed.
 
 (* ... and from then on every call that takes the socket lock (Recv, Close, SetOption, OpenContext) never returns *)
-Lemma wedged_blocks s t k :
+Lemma wedged_blocks fixed s t k :
   sb_wedged s = true -> sb_locks k = true ->
-  snd (sb_step s (SCall t k)) = [] /\ In t (sb_blocked (fst (sb_step s (SCall t k)))) /\
-  sb_wedged (fst (sb_step s (SCall t k))) = true.
+  snd (sb_step fixed s (SCall t k)) = [] /\ In t (sb_blocked (fst (sb_step fixed s (SCall t k)))) /\
+  sb_wedged (fst (sb_step fixed s (SCall t k))) = true.
 Proof.
   intros Hw Hl. unfold sb_step. cbn [fst snd sb_step_raw]. unfold sb_call.
   cbn [sb_clear sb_with sb_wedged]. rewrite Hw, Hl. cbn [andb sb_park sb_out sb_wedged rev].
   repeat split; [|exact Hw]. unfold sb_blocked. cbn [sb_park sb_stuck sb_threads]. apply in_or_app. right. apply in_or_app. right. left. reflexivity.
 Qed.
 
-(* READQ-LEN < 0 is accepted by SUB's SetOption and panics in make(chan) *)
+(* as found, READQ-LEN < 0 is accepted by SUB's SetOption and panics in make(chan) *)
 Lemma readqlen_negative_panics s t c x v arg :
   kget c (sb_ctxs s) = Some x -> (v < 0)%Z ->
-  snd (sb_step s (SCall t (CSetOpt c OReadQLen v arg))) = [ORet t (RErr EPanic)].
+  snd (sb_step false s (SCall t (CSetOpt c OReadQLen v arg))) = [ORet t (RErr EPanic)].
 Proof.
   intros Hx Hv. unfold sb_step. cbn [snd sb_step_raw]. unfold sb_call. cbn [sb_clear sb_with sb_wedged sb_ctxs sb_locks].
   assert (E1 : (0 <=? v)%Z = false) by lia. assert (E2 : (v <? 0)%Z = true) by lia.
   rewrite E1, andb_false_r, Hx, E2. reflexivity.
 Qed.
 
-(* the two as histories, judged by the oracles / the blocked set *)
+(* repaired, READQ-LEN < 0: ErrBadValue, and nothing about the socket changes *)
+Lemma readqlen_negative_rejected s t c x v arg :
+  kget c (sb_ctxs s) = Some x -> (v < 0)%Z ->
+  snd (sb_step true s (SCall t (CSetOpt c OReadQLen v arg))) = [ORet t (RErr EBadValue)] /\
+  fst (sb_step true s (SCall t (CSetOpt c OReadQLen v arg))) = sb_emit (sb_clear s) (ORet t (RErr EBadValue)).
+Proof.
+  intros Hx Hv. unfold sb_step. cbn [fst snd sb_step_raw]. unfold sb_call. cbn [sb_clear sb_with sb_wedged sb_ctxs sb_locks].
+  assert (E1 : (0 <=? v)%Z = false) by lia. assert (E2 : (v <? 0)%Z = true) by lia.
+  rewrite E1, andb_false_r, Hx, E2. split; reflexivity.
+Qed.
+
+(* repaired: no step ever wedges the socket or parks a call on its mutex -- for ALL histories, whatever READQ-LEN *)
+Definition unwedged (s : sstate) : Prop := sb_wedged s = false /\ sb_stuck s = [].
+
+Lemma existsb_false {A} (f : A -> bool) l : (forall x, f x = false) -> existsb f l = false.
+Proof. intro H. induction l as [|a l IH]; cbn [existsb]; [reflexivity|]. rewrite H, IH. reflexivity. Qed.
+
+Lemma sb_call_unwedged fixed s t k : unwedged s -> unwedged (sb_call fixed s t k).
+Proof.
+  intros [Hw Hs]. unfold sb_call. rewrite Hw. cbn [andb].
+  destruct k as [? ? ?|c|c o v arg|c|c|]; unfold unwedged;
+    repeat match goal with
+           | |- context [match ?e with _ => _ end] => destruct e
+           end; cbn; auto.
+Qed.
+
+Lemma sb_step_unwedged s st : unwedged s -> unwedged (fst (sb_step true s st)).
+Proof.
+  intros [Hw Hs]. unfold sb_step. cbn [fst].
+  assert (Hc : unwedged (sb_clear s)) by (split; assumption).
+  set (s0 := sb_clear s) in *. clearbody s0. clear Hw Hs s. destruct Hc as [Hw Hs].
+  destruct st as [t k|p|p|p body|p h|p ok|until|tm]; cbn [sb_step_raw].
+  - apply sb_call_unwedged. split; assumption.
+  - rewrite Hw. split; assumption.
+  - split; assumption.
+  - destruct (negb (pipe_up (sb_pipes s0) p)); [split; assumption|]. rewrite Hw.
+    unfold unwedged, sb_deliver. cbn [sb_flags sb_with sb_wedged sb_stuck]. rewrite Hw. cbn [orb]. split; [|exact Hs].
+    apply existsb_false. intros [c x]. reflexivity.
+  - split; assumption.
+  - split; assumption.
+  - destruct (expire_threads (sb_threads s0) until) as [[rest os] amb]. split; assumption.
+  - split; assumption.
+Qed.
+
+Lemma fixed_never_wedges h : unwedged (sb_run true sb_init h).
+Proof.
+  assert (G : forall s, unwedged s -> unwedged (sb_run true s h)).
+  { induction h as [|st r IH]; intros s Hs; [exact Hs|]. cbn [sb_run]. apply IH, sb_step_unwedged, Hs. }
+  apply G. split; reflexivity.
+Qed.
+
+(* repaired, READQ-LEN 0: a matching message that finds no Recv parked is dropped: no observation, the context
+   and the socket are as before (in particular every later call still takes the lock) *)
+Lemma readqlen_zero_drops s p body c x :
+  pipe_up (sb_pipes s) p = true -> sb_wedged s = false ->
+  kget c (sb_ctxs s) = Some x -> x_qlen x = 0 -> blocked_on (sb_threads s) c = [] ->
+  kget c (sb_ctxs (fst (sb_step true s (SDeliver p body)))) = Some x /\
+  sb_wedged (fst (sb_step true s (SDeliver p body))) = false.
+Proof.
+  intros Hp Hw Hx Hq Hb. split.
+  - rewrite deliver_local by assumption. rewrite Hx. unfold dl_ctx. rewrite Hb, Hq. cbn [N.ltb N.compare].
+    rewrite andb_false_r. reflexivity.
+  - unfold sb_step. cbn [fst sb_step_raw sb_clear sb_with sb_pipes sb_wedged sb_ctxs sb_threads].
+    rewrite Hp, Hw. cbn [negb]. unfold sb_deliver. cbn [sb_flags sb_clear sb_with sb_wedged sb_ctxs sb_threads]. rewrite ?Hw. cbn [orb].
+    apply existsb_false. intros [c' x']. reflexivity.
+Qed.
+
+(* the two as histories, judged by the blocked set / the oracles, for the code as found and as repaired *)
 Definition wedge_history : list stim :=
   [ SCall 0 (CSetOpt 0 OTtl KSub []); SAddPipe 1;
     SCall 1 (CSetOpt 0 OSubscribe 0%Z []);
     SCall 2 (CSetOpt 0 OReadQLen 0%Z []);
     SDeliver 1 (mkb 1 97);
-    SCall 3 (CRecv 0);                     (* the message is there, yet this never returns *)
-    SCall 4 CCloseSock ].                  (* nor does this *)
-Lemma wedge_history_blocks :
-  map (fun r => snd r) (u_trace U0 wedge_history) = [[]; []; []; []; []; [3]; [3; 4]].
+    SCall 3 (CRecv 0);                     (* as found: the message is there, yet this never returns *)
+    SCall 4 CCloseSock ].                  (* as found: nor does this *)
+Lemma wedge_history_old :
+  map (fun r => snd r) (u_trace false U0 wedge_history) = [[]; []; []; []; []; [3]; [3; 4]].
+Proof. vm_compute. reflexivity. Qed.
+(* repaired: the message is dropped, Recv waits for the next one, Close returns and releases it *)
+Lemma wedge_history_fixed :
+  map (fun r => (snd (fst r), snd r)) (u_trace true U0 wedge_history) =
+  [([], []); ([], []); ([ORet 1 ROk], []); ([ORet 2 ROk], []); ([], []); ([], [3]); ([ORet 3 (RErr EClosed); ORet 4 ROk], [])].
 Proof. vm_compute. reflexivity. Qed.
 
 Definition panic_history : list stim :=
   [ SCall 0 (CSetOpt 0 OTtl KSub []); SCall 1 (CSetOpt 0 OReadQLen (-1)%Z []) ].
-Lemma panic_history_flagged : c06_panic_oracle (u_trace U0 panic_history) = Some 1.
+Lemma panic_history_old : c06_panic_oracle (u_trace false U0 panic_history) = Some 1.
+Proof. vm_compute. reflexivity. Qed.
+Lemma panic_history_fixed : c06_panic_oracle (u_trace true U0 panic_history) = None.
 Proof. vm_compute. reflexivity. Qed.
 
 (* non-vacuity: a history on which every oracle is silent and things are delivered *)
@@ -482,8 +556,8 @@ Definition demo_history : list stim :=
     SCall 4 (CSetOpt 1 OUnsubscribe 0%Z []); SCall 5 (CSetOpt 1 OSubscribe 0%Z (mkb 1 98));
     SCall 6 (CRecv 0); SCall 7 (CRecv 1); SDeliver 1 (mkb 2 25185) ].
 Lemma demo_history_ok :
-  c06_sub_oracle (u_trace U0 demo_history) = None /\ c06_live_oracle (u_trace U0 demo_history) = None /\
-  flat_map (fun r => snd (fst r)) (u_trace U0 demo_history) =
+  c06_sub_oracle (u_trace true U0 demo_history) = None /\ c06_live_oracle (u_trace true U0 demo_history) = None /\
+  flat_map (fun r => snd (fst r)) (u_trace true U0 demo_history) =
     [ORet 1 ROk; ORet 2 ROk; ORet 3 ROk; ORet 4 ROk; ORet 5 ROk; ORet 6 (RMsg [] (mkb 2 24930));
      ORet 7 (RMsg [] (mkb 2 25185))].
 Proof. vm_compute. auto. Qed.
